@@ -82,6 +82,13 @@ def feed (d : Text) (s : St) (chunk : Text) : St × List Text :=
   else
     ({ buffer := buf }, [])
 
+/-- A read during which the consumer raises on the `k`-th record of this read (0-based): the buffer has already been
+set to the unterminated tail (`self.buffer = parts.pop(-1)` precedes the emit loop), the records up to and including
+the failing one have been handed over, the remaining records of this read are gone with the local `parts` list. -/
+def feedFail (d : Text) (s : St) (chunk : Text) (k : Nat) : St × List Text :=
+  let r := feed d s chunk
+  (r.1, r.2.take (k + 1))
+
 /-- A poll that reads nothing (`line == ''`) sleeps and changes nothing; a
 read of a non-empty chunk feeds it. -/
 def poll (d : Text) (s : St) (chunk : Text) : St × List Text :=
